@@ -366,7 +366,7 @@ fn real_main() {
         }
         Some("trace-xform") => {
             let inputs = cases::resolve_inputs(&get("inputs", "gen:100"), seed);
-            let lines: Vec<_> = inputs.par_iter().flat_map(|i| vec![cases::xform_case(i, "plain"), cases::xform_case(i, "gc"), cases::xform_case(i, "edited")]).collect();
+            let lines: Vec<_> = inputs.par_iter().flat_map(|i| vec![cases::xform_case(i, "plain"), cases::xform_case(i, "gc"), cases::xform_case(i, "edited"), cases::xform_case(i, "plain-loc")]).collect();
             cases::write_lines(&out, &lines);
             println!("cases {}", lines.len());
         }
